@@ -5,7 +5,11 @@ A history creates 1..3 arrays (`ARR[0..2]`) and applies 5..60 steps.  It is rend
 
     LIB                         fixed in-program library (dump function D, value renderer V, step runner S, ...)
     ARR=[...];IP=MKIP(k);       creation of the arrays and of the "intermediate prototype" object
-    S(k,p,f,fl,lk,pol,rb);      one line per step
+    S(k,p,f,fl,lk,pol,rb,np);   one line per step: step number, target array, step function for the real array / Proxy twin,
+                                step function for the array-like twin (method calls as Array.prototype.m.call), L-lane
+                                eligibility, elements to put on Array.prototype (0) / Object.prototype (1) for the duration of
+                                the step: [[where,key,kind 0=data 1=accessor 2=read-only]..] (removed in a finally after the
+                                step's dump), rebind flag (ARR[p] = the array the step returned), no-Proxy-lane flag
 
 `S` runs step k on target array p in up to THREE LANES and prints one line per lane:
 
@@ -37,7 +41,14 @@ evidence of the check): an array that only ever received int32 values -> 'int'; 
 non-default attribute, length growth -> 'sparse'.  The lattice is monotone (boa never narrows a storage form).
 
 `avoid` = named shapes the main stream must not generate because an OPEN known finding covers them
-(see known/c14_findings.json; the check replays their exact reproducers instead).
+(see known/c14_findings.json; the check replays their exact reproducers instead): AVOID_* below.
+
+Shapes that are never generated because V8 (the oracle) deviates from ECMA-262 there (boa follows the spec):
+  - `fill` whose start/end coercion shrinks the array (V8's fast path fills only up to the new length)
+  - `sort` on fewer than 2 elements (V8 returns early, the spec still does Get/Set of the single element: visible with an accessor)
+  - `toSorted` while an accessor / read-only element sits on Array.prototype / Object.prototype (V8 stores the result with [[Set]])
+  - Object.isFrozen is only printed through the dump, where V8's answer is normalised (V8 ignores a writable `length`)
+  - inconsistent or side-effecting sort comparators (implementation-defined by the spec itself)
 """
 from .rng import Rng
 
